@@ -527,7 +527,12 @@ class Kernel(Module):
             # Did this Kernel eat the diag option?
             # If it does not return a LazyEvaluatedKernelTensor, we can call diag on the output
             if not isinstance(res, LazyEvaluatedKernelTensor):
-                if res.dim() == x1_.dim() and res.shape[-2:] == torch.Size((x1_.size(-2), x2_.size(-2))):
+                # The full kernel matrix has two more dimensions than the (broadcasted) batch shape, plus one with
+                # last_dim_is_batch. (x1_ alone does not determine the batch shape - the kernel parameters or x2_ may
+                # add batch dimensions - and a `batch x n` diagonal with batch == n is not a `n x n` matrix.)
+                batch_dim = len(torch.broadcast_shapes(x1_.shape[:-2], x2_.shape[:-2], self.batch_shape))
+                full_dim = batch_dim + 2 + (1 if last_dim_is_batch else 0)
+                if res.dim() == full_dim and res.shape[-2:] == torch.Size((x1_.size(-2), x2_.size(-2))):
                     res = res.diagonal(dim1=-1, dim2=-2)
             return res
 
